@@ -411,6 +411,16 @@ class _Typer:
     def e_Call(self, e):
         f = ast.unparse(e.func)
         short = f.split(".")[-1]
+        if f == "zip" and len(e.args) == 1 and isinstance(e.args[0], ast.Starred) and not e.keywords:
+            # zip(*rows): the transposition - one sequence per member of a row; a list of points gives the x's, the y's and the z's
+            k = self.ev(e.args[0].value)
+            if k == L(PT):
+                return ("TUPLE", [L(PC), L(PC), L(PC)])
+            if k == L(VEC):
+                return ("TUPLE", [L(VC), L(VC), L(VC)])
+            if isinstance(k, tuple) and k[0] == "LIST" and isinstance(k[1], tuple) and k[1][0] == "TUPLE":
+                return ("TUPLE", [L(x) for x in k[1][1]])
+            return UNK
         args = []
         for a in e.args:
             if isinstance(a, ast.Starred):
